@@ -40,9 +40,13 @@ def scenarios(ctx, rng):
     out = []
     for i in range(n):
         shape = SHAPES[(i + off) % len(SHAPES)] if i else 'diamond'     # always one shape with multiple inheritance
-        out.append(G.make_error_scenario(rng, 'c02k_s%d_%d_%s' % (ctx.seed, i, shape), shape, G.SHAPES[shape],
-                                         policy='throw' if i % 2 else 'default', sanitize=(i % 2 == 0), ndebug=(i % 4 == 2),
-                                         registration='macro' if i % 3 else 'template'))
+        scn = G.make_error_scenario(rng, 'c02k_s%d_%d_%s' % (ctx.seed, i, shape), shape, G.SHAPES[shape],
+                                    policy='throw' if i % 2 else 'default', sanitize=(i % 2 == 0), ndebug=(i % 4 == 2),
+                                    registration='macro' if i % 3 else 'template')
+        if i % 2 == 1:
+            scn['flags']['const_pointee'] = True     # const-qualified pointees: the reported type ids must not change
+            scn['name'] += '_const'
+        out.append(scn)
     return out
 
 
